@@ -1,5 +1,6 @@
 import HawkModel.Gc
 import HawkModel.GcCall
+import HawkModel.GcVal
 import HawkModel.Drv.Util
 /-! driver for the gc area (C07): one client operation per line in, canonical heap dump out.
 Same protocol as harness/gc_h.c.  `new legacy` selects the model of the code before the repair. -/
@@ -95,7 +96,33 @@ def step (s : St) (line : String) : St × String :=
     | some (s', r, false) => (s', s!"r={r}")
     | none => (s, "bad-op")
 
+/-- driver state: the containers and, separately, the leaf values the host holds (v-ops) -/
+structure DS where
+  s : St := {}
+  v : VSt := {}
+
+def vdump (v : VSt) : String :=
+  s!"blk={v.host} ic={v.ichunks} if={v.ifree} rc={v.fchunks} rf={v.ffree} sc={joinWith "," (v.scache.map toString)}"
+
+def stepD (d : DS) (line : String) : DS × String :=
+  match words line with
+  | ["vint"] => let v' := mkInt d.v; ({ d with v := v' }, s!"r={v'.tab.length - 1} {vdump v'}")
+  | ["vflt"] => let v' := mkFlt d.v; ({ d with v := v' }, s!"r={v'.tab.length - 1} {vdump v'}")
+  | ["vstr", n] => match n.toNat? with
+    | some n => let v' := mkStr d.v (if n < 1 then 1 else if n > 4000 then 4000 else n); ({ d with v := v' }, s!"r={v'.tab.length - 1} {vdump v'}")
+    | none => (d, "bad-op")
+  | ["vrel", k] => match k.toNat? with
+    | some k => match rel d.v k with
+      | some v' => ({ d with v := v' }, s!"r=ok {vdump v'}")
+      | none => (d, s!"r=ERR {vdump d.v}")
+    | none => (d, s!"r=ERR {vdump d.v}")
+  | ws =>
+    let (s', out) := step d.s line
+    match ws with
+    | "new" :: _ => ({ s := s', v := {} }, out)
+    | _ => ({ d with s := s' }, out)
+
 def main : IO Unit := do
-  forLines (← IO.getStdin) St {} step
+  forLines (← IO.getStdin) DS {} stepD
 
 end Hawk.Drv.Gc
